@@ -110,7 +110,7 @@ ArcGeom(rz, call, h, g, pen, endPt) ==
       B    == Frame(ToVB10(endPt[1], g.sx, g.mx), ToVB10(endPt[2], g.sy, g.my), h, rx10, ry10)
       S    == IF h.scaled = 1 THEN N2(A) ELSE 4194304
       cab  == Cross(A, B)
-      half == Abs(cab) <= S \div 64                     \* extent (nearly) exactly half a turn
+      half == Abs(cab) <= S \div 64 /\ Dot(A, B) < 0   \* extent (nearly) exactly half a turn (not: nearly none / nearly all)
       sg   == IF call.fl[2] = 1 THEN 1 ELSE -1
       la   == IF call.fl[2] = 1 THEN cab < 0 ELSE cab > 0
       M    == << A[1] + B[1], A[2] + B[2] >>
@@ -118,7 +118,9 @@ ArcGeom(rz, call, h, g, pen, endPt) ==
   IN IF ~OnEll(N2(A), S) \/ ~OnEll(N2(B), S) \/ (h.scaled = 1 /\ N2(A) <= 4194304)
           \/ (~half /\ la # (call.fl[1] = 1)) THEN "hint"
      ELSE IF \E i \in 1..Len(ss) : ~OnEll(N2(ss[i]), S) THEN "a sample point is off the ellipse"
-     ELSE IF \E i \in 1..Len(ss) - 1 : sg * Cross(ss[i], ss[i + 1]) <= 0 THEN "samples do not advance in the sweep direction"
+     ELSE IF \/ \E i \in 1..Len(ss) - 1 : sg * Cross(ss[i], ss[i + 1]) < 0
+             \/ \A i \in 1..Len(ss) - 1 : Cross(ss[i], ss[i + 1]) = 0    \* (a sliver may stall within the sampling resolution, never all the way)
+          THEN "samples do not advance in the sweep direction"
      ELSE IF ~half /\ la /\ ~(\E i \in 1..Len(ss) : Dot(ss[i], M) < 0) THEN "large arc requested, small arc drawn"
      ELSE IF ~half /\ ~la /\ (\E i \in 1..Len(ss) : Dot(ss[i], M) < 0) THEN "small arc requested, large arc drawn"
      ELSE "ok"
